@@ -39,6 +39,8 @@ import Reamber.Lemmas.Pipeline
 import Reamber.Lemmas.PipelineConv
 import Reamber.Lemmas.PipelineOsuQua
 import Reamber.Lemmas.PipelineQuaOsu
+import Reamber.Lemmas.PipelineGeneric
+import Reamber.Props.C07
 import Reamber.Props.C01
 import Reamber.Lemmas.OsuDialect
 import Reamber.Generated.SMTables
@@ -458,5 +460,152 @@ theorem qua_to_osu_end_to_end (d : Qua.Doc) (hdecl : Qua.Spec.objsDeclared d = t
   · exact hq ▸ h2
   · rw [h3, hq]
     exact ⟨_, _, List.Perm.refl _, List.Perm.refl _, zipped_refl _ (closeBpm_ms_refl false (ofQua c0)) _⟩
+
+/-! ## links 2 + 3 for EVERY converter into osu / into Quaver without a shift parameter, from any source frames -/
+
+/-- writer link into osu over `AChart` (C01 `denote_writeText` + `quantize_osu_close`) -/
+theorem write_osu_close (R : Osu.Render) (t : Convert.TChart) (md : Osu.Meta) (svs : List Osu.Sv) (a : AChart)
+    (ha : ofTChart t = a) (hw : OsuWritable R (osuOfT t md svs)) :
+    ∃ c', Osu.denoteText (Osu.writeText R (osuOfT t md svs)) = .ok c' ∧ CloseTo 0 .ms false 0 a (ofOsu c') := by
+  have hq : ofOsu (osuOfT t md svs) = a := by rw [ofOsu_osuOfT, ha]
+  have hdw := Osu.denote_writeText R (osuOfT t md svs) hw.hk hw.hk' hw.hhits hw.hholds hw.hb hw.hs hw.hm hw.hnl hw.hbq hw.hbc
+  obtain ⟨h1, h2, h3⟩ := quantize_osu_close R.uni (osuOfT t md svs) a
+  refine ⟨_, hdw, hq ▸ h1, hq ▸ h2, ?_⟩
+  rw [h3, hq]
+  exact ⟨_, _, List.Perm.refl _, List.Perm.refl _, zipped_refl _ (closeBpm_ms_refl false a) _⟩
+
+/-- writer link into Quaver over `AChart` (C06 `qua_write_denotes`), tempo points on whole milliseconds -/
+theorem write_qua_close (t : Convert.TChart) (info : Qua.Rec) (svs : List Qua.Sv) (d : Qua.Doc) (a : AChart)
+    (ha : ofTChart t = a) (hm : Qua.MetaOk info) (hms : TempoWholeMs a)
+    (hw : Qua.write (quaOfT t info svs) = .ok d) :
+    ∃ c', Qua.Spec.denote d = .ok c' ∧ CloseTo 0 .ms false 0 a (ofQua c') := by
+  have hq : ofQua (quaOfT t info svs) = a := by rw [ofQua_quaOfT, ha]
+  obtain ⟨hden', _⟩ := Qua.qua_write_denotes _ d hm (ksLists_quaOfT t info svs) hw
+  obtain ⟨c', hc', hobj⟩ := into_qua_objects_partial _ d hm (ksLists_quaOfT t info svs) hw
+  have hceq : c' = Qua.Spec.quantize (quaOfT t info svs) := by
+    rw [hden'] at hc'
+    exact (Except.ok.inj hc').symm
+  refine ⟨c', hc', hq ▸ hobj.1, hq ▸ hobj.2, ?_⟩
+  have hb : (ofQua c').bpms = a.bpms := by
+    rw [hceq, ← hq]
+    simp only [ofQua, Qua.Spec.quantize, List.map_map]
+    apply List.map_congr_left
+    intro b hbm
+    have hmem : (b.offset, b.bpm) ∈ a.bpms := by
+      rw [← hq]
+      exact List.mem_map.mpr ⟨b, hbm, rfl⟩
+    have := hms _ hmem
+    simp only [Function.comp, Qua.Spec.qBpm]
+    rw [this]
+  rw [hb]
+  exact ⟨_, _, List.Perm.refl _, List.Perm.refl _, zipped_refl _ (closeBpm_ms_refl false a) _⟩
+
+/-- **convert, then write as osu — every converter entry without a shift parameter** (the four converters into osu, and
+formally any other entry of that kind): for every well-formed source (any number of charts, any row labels) and every
+(source map, converted chart) pair, the text written for the chart held by the converted frames denotes the SOURCE MAP's
+abstract chart: hits and holds within 1 ms, tempo timeline equal. -/
+theorem convert_write_osu : ∀ c ∈ Generated.converters, c.shiftParam = none →
+    ∀ (src : Convert.Src) (k : Int) (out : Convert.Out), (∀ m ∈ src.maps, Convert.srcMapOk m = true) →
+    Convert.convert Convert.tables c src k = .ok out →
+    ∀ p ∈ src.maps.zip out.pairs, ∀ (R : Osu.Render) (md : Osu.Meta) (svs : List Osu.Sv),
+      OsuWritable R (osuOfT p.2.2 md svs) →
+      ∃ c', Osu.denoteText (Osu.writeText R (osuOfT p.2.2 md svs)) = .ok c' ∧
+        CloseTo 0 .ms false 0 (ofSrcMap p.1) (ofOsu c') := by
+  intro c hc hns src k out hsrc hconv p hp R md svs hw
+  exact write_osu_close R _ md svs _
+    (convert_abstract_eq _ c src k out (Convert.table_static_ok c hc) hns hsrc hconv p hp) hw
+
+/-- **convert, then write as Quaver — every converter entry without a shift parameter**: as `convert_write_osu`, with the
+source map's tempo points on whole milliseconds. -/
+theorem convert_write_qua : ∀ c ∈ Generated.converters, c.shiftParam = none →
+    ∀ (src : Convert.Src) (k : Int) (out : Convert.Out), (∀ m ∈ src.maps, Convert.srcMapOk m = true) →
+    Convert.convert Convert.tables c src k = .ok out →
+    ∀ p ∈ src.maps.zip out.pairs, ∀ (info : Qua.Rec) (svs : List Qua.Sv) (d : Qua.Doc),
+      Qua.MetaOk info → TempoWholeMs (ofSrcMap p.1) → Qua.write (quaOfT p.2.2 info svs) = .ok d →
+      ∃ c', Qua.Spec.denote d = .ok c' ∧ CloseTo 0 .ms false 0 (ofSrcMap p.1) (ofQua c') := by
+  intro c hc hns src k out hsrc hconv p hp info svs d hm hms hw
+  exact write_qua_close _ info svs d _
+    (convert_abstract_eq _ c src k out (Convert.table_static_ok c hc) hns hsrc hconv p hp) hm hms hw
+
+/-! ## O2Jam → osu and O2Jam → Quaver, bytes to written file -/
+
+def o2jToOsu : Convert.Conv := Convert.conv! "O2JToOsu.convert"
+def o2jToQua : Convert.Conv := Convert.conv! "O2JToQua.convert"
+
+theorem o2j_entries : o2jToOsu ∈ Generated.converters ∧ o2jToOsu.name = "O2JToOsu.convert" ∧ o2jToOsu.shiftParam = none ∧
+    o2jToQua ∈ Generated.converters ∧ o2jToQua.name = "O2JToQua.convert" ∧ o2jToQua.shiftParam = none := by
+  decide +kernel
+
+/-- the in-memory `O2JMapSet` as the converters read it: one map per level (the list frames holding the level's
+abstract rows, fresh labels), the set's text attributes as placeholders -/
+def o2jSrc (f : O2J.FileOut) : Convert.Src :=
+  ⟨[("title", "<title>"), ("artist", "<artist>"), ("creator", "<creator>")],
+   f.levels.map (fun l => embA (ofO2J l) none [] "<level>")⟩
+
+theorem o2jSrc_ok (f : O2J.FileOut) : ∀ m ∈ (o2jSrc f).maps, Convert.srcMapOk m = true := by
+  intro m hm
+  simp only [o2jSrc, List.mem_map] at hm
+  obtain ⟨l, _, rfl⟩ := hm
+  exact srcMapOk_embA _ _ _ _
+
+theorem o2jSrc_zip (f : O2J.FileOut) (ps : List (Convert.TGroup × Convert.TChart)) (p : O2J.LevelOut × Convert.TGroup × Convert.TChart)
+    (hp : p ∈ f.levels.zip ps) : (embA (ofO2J p.1) none [] "<level>", p.2) ∈ (o2jSrc f).maps.zip ps := by
+  simp only [o2jSrc, List.zip_map_left]
+  exact List.mem_map.mpr ⟨p, hp, rfl⟩
+
+/-- non-vacuity of the converter hypotheses: on the frames of a two-level set both converter models succeed and return
+one chart per level holding the level's tempo rows -/
+example :
+    let lv : O2J.LevelOut := ⟨[], [⟨0, 120, 0⟩, ⟨1, 150, 2000⟩]⟩
+    let f : O2J.FileOut := ⟨[], [lv, lv]⟩
+    (match Convert.convert Convert.tables o2jToOsu (o2jSrc f) 0 with
+     | .ok out => out.charts.map (fun t => (ofTChart t).bpms) == [[(0, 120), (2000, 150)], [(0, 120), (2000, 150)]]
+     | .error _ => false) = true ∧
+    (match Convert.convert Convert.tables o2jToQua (o2jSrc f) 0 with
+     | .ok out => out.charts.map (fun t => (ofTChart t).bpms) == [[(0, 120), (2000, 150)], [(0, 120), (2000, 150)]]
+     | .error _ => false) = true := by decide +kernel
+
+/-- **O2Jam → osu, end to end** (bytes of the .ojn to written .osu text; reader C07, converter C08, writer C01): for
+every well-formed byte string `bs` that the format's specification reads as `f` (header + one level per package count):
+1. the reader as written returns exactly `f` (C07 `read_spec`);
+2. whenever the converter model's `O2JToOsu.convert` succeeds on the set's frames it returns one chart per level;
+3. for every level `l` and its converted chart `t`: whenever the chart held by `t`'s frames is `OsuWritable`, the written
+   text has a by-the-book denotation `c'` with `CloseTo 0 ms false 0 (ofO2J l) (ofOsu c')` — hits and holds of the level
+   within 1 ms, tempo timeline equal.
+Remaining hypotheses: success of the converter model; `OsuWritable` (C01's writer hypotheses; the written key count 7 is
+`osu_circle_size_rules`); renderer `R` a parameter.  Glue by definition: `o2jSrc` / `embA`, `osuOfT`. -/
+theorem o2j_to_osu_end_to_end (bs : List Nat) (hwf : O2J.Spec.wellFormed bs = true) (f : O2J.FileOut)
+    (hspec : O2J.Spec.specSet bs = .ok f) (k : Int) (out : Convert.Out)
+    (hconv : Convert.convert Convert.tables o2jToOsu (o2jSrc f) k = .ok out) :
+    O2J.readFile bs = .ok f ∧ out.charts.length = f.levels.length ∧
+    ∀ p ∈ f.levels.zip out.pairs, ∀ (R : Osu.Render) (md : Osu.Meta) (svs : List Osu.Sv),
+      OsuWritable R (osuOfT p.2.2 md svs) →
+      ∃ c', Osu.denoteText (Osu.writeText R (osuOfT p.2.2 md svs)) = .ok c' ∧
+        CloseTo 0 .ms false 0 (ofO2J p.1) (ofOsu c') := by
+  obtain ⟨hc, _, hns, _, _, _⟩ := o2j_entries
+  refine ⟨by rw [O2J.read_spec bs hwf]; exact hspec, ?_, ?_⟩
+  · have := Convert.one_per_source _ _ _ _ _ (Convert.table_shapes _ hc) hconv
+    simpa [Convert.onePerSource, o2jSrc] using this
+  · intro p hp R md svs hw
+    have := convert_write_osu _ hc hns _ k out (o2jSrc_ok f) hconv _ (o2jSrc_zip f _ p hp) R md svs hw
+    simpa [ofSrcMap_embA] using this
+
+/-- **O2Jam → Quaver, end to end**: as `o2j_to_osu_end_to_end` with the Quaver writer (C06); additionally the level's
+tempo points lie on whole milliseconds (`TempoWholeMs`), the metadata record is `MetaOk`, the writer model accepts. -/
+theorem o2j_to_qua_end_to_end (bs : List Nat) (hwf : O2J.Spec.wellFormed bs = true) (f : O2J.FileOut)
+    (hspec : O2J.Spec.specSet bs = .ok f) (k : Int) (out : Convert.Out)
+    (hconv : Convert.convert Convert.tables o2jToQua (o2jSrc f) k = .ok out) :
+    O2J.readFile bs = .ok f ∧ out.charts.length = f.levels.length ∧
+    ∀ p ∈ f.levels.zip out.pairs, ∀ (info : Qua.Rec) (svs : List Qua.Sv) (d : Qua.Doc),
+      Qua.MetaOk info → TempoWholeMs (ofO2J p.1) → Qua.write (quaOfT p.2.2 info svs) = .ok d →
+      ∃ c', Qua.Spec.denote d = .ok c' ∧ CloseTo 0 .ms false 0 (ofO2J p.1) (ofQua c') := by
+  obtain ⟨_, _, _, hc, _, hns⟩ := o2j_entries
+  refine ⟨by rw [O2J.read_spec bs hwf]; exact hspec, ?_, ?_⟩
+  · have := Convert.one_per_source _ _ _ _ _ (Convert.table_shapes _ hc) hconv
+    simpa [Convert.onePerSource, o2jSrc] using this
+  · intro p hp info svs d hm hms hw
+    have := convert_write_qua _ hc hns _ k out (o2jSrc_ok f) hconv _ (o2jSrc_zip f _ p hp) info svs d hm
+      (by simpa [ofSrcMap_embA] using hms) hw
+    simpa [ofSrcMap_embA] using this
 
 end Reamber.Pipeline
